@@ -9,6 +9,7 @@ package main
 
 import (
 	"fmt"
+	"sort"
 	"time"
 
 	"github.com/0xReLogic/Helios/internal/config"
@@ -263,6 +264,77 @@ func runRL(x *X) {
 		x.Do("pattern", func() { runScript(victim, []rlOp{{kind: "allow", n: max + 1}}, false) }, onErr)
 		x.Fault("flood-of-clients")
 		x.Probe("flood-then-cleanup")
+	}
+
+	// Biased closing pattern: callers that lose the CPU inside the limiter (the stall fault: a task is
+	// descheduled at a lock or yield point for a refill period or more while the clock and the other
+	// callers go on). A separate limiter, one client, two or three tasks; every call is an interval
+	// (invoked, returned) of virtual time, and the burst bound is judged over intervals: the
+	// admissions of any set of calls lie between its earliest invocation and its latest return.
+	if !x.dead && c.Intn(3, "stalled-callers") == 0 {
+		var l3 *ratelimiter.TokenBucketRateLimiter
+		x.Do("setup", func() { l3 = ratelimiter.NewTokenBucketRateLimiter(max, refill) }, onErr)
+		type ivl struct {
+			inv, ret time.Duration
+			ok       bool
+		}
+		var ivs []ivl
+		call := func() {
+			inv := x.Now()
+			ok := l3.Allow("S")
+			ret := x.Now()
+			x.mu.Lock()
+			ivs = append(ivs, ivl{inv, ret, ok})
+			x.mu.Unlock()
+		}
+		x.EnableStalls(6, 3, refill/2, refill+time.Millisecond, 3*refill)
+		nT := 2 + c.Intn(2, "stalled-tasks")
+		for t := 0; t < nT; t++ {
+			off := time.Duration(c.Intn(3, "stalled-off")) * refill / 2
+			rounds := 2 + c.Intn(3, "stalled-rounds")
+			s.Spawn("stalled-S", func() {
+				TaskSleep(off)
+				for r := 0; r < rounds; r++ {
+					for i := 0; i < max+1; i++ {
+						call()
+					}
+					TaskSleep(refill + time.Millisecond)
+				}
+			})
+		}
+		x.RunTasks(onErr)
+		x.S.StallDenom = 0
+		x.Do("pattern", func() {
+			for i := 0; i < max+1; i++ {
+				call()
+			}
+		}, onErr)
+		if !x.dead {
+			var adm []ivl
+			for _, v := range ivs {
+				if v.ok {
+					adm = append(adm, v)
+				}
+			}
+			sort.SliceStable(adm, func(i, j int) bool { return adm[i].ret < adm[j].ret })
+		outer:
+			for i := 0; i < len(adm); i++ {
+				lo := adm[i].inv
+				for j := i; j < len(adm); j++ {
+					// admissions i..j (by return time): all of them happened between the earliest
+					// invocation among them and adm[j]'s return
+					if adm[j].inv < lo {
+						lo = adm[j].inv
+					}
+					T := adm[j].ret - lo
+					if bound := max + int(T/refill) + 1; j-i+1 > bound {
+						x.Violate("C09", "C09/bound-exceeded{stalled-callers}", "one client, %d tasks, some of them descheduled inside the limiter: %d calls admitted that all ran between t=%v and t=%v (T=%v), bound max_tokens(%d)+floor(T/refill %v)+1 = %d", nT, j-i+1, lo, adm[j].ret, T, max, refill, bound)
+						break outer
+					}
+				}
+			}
+			x.Probe("stalled-callers")
+		}
 	}
 
 	// ---- oracles over the history ----------------------------------------------
